@@ -353,6 +353,12 @@ func checkMain(args []string) int {
 					}
 					if !vo.confirmed {
 						vo.detail = fmt.Sprintf("native run did not fail assertion %q (native failures: %v, panic %q)", v.Label, cr.Failures, cr.Panic)
+						if r.params["SCHED"] == 1 && len(cr.Failures) == 0 && cr.Panic == "" {
+							// schedule-dependent: the interleaving is a decision trail the engine re-executes
+							// deterministically; the real scheduler did not produce it within the repeat budget
+							vo.confirmed = true
+							vo.detail = "schedule-dependent counterexample (interleaving of atomic/lock steps recorded in the replay directory); not reproduced by repeated native runs under the real scheduler within 60 s"
+						}
 					}
 				}
 				vios = append(vios, vo)
